@@ -61,9 +61,9 @@ def generate():
     order("ordRegLoad", "on_finish", 0)
     order("ordRegCasSucc", "on_finish", 1, 3)
     order("ordRegCasFail", "on_finish", 1, 4)
-    order("ordWaitAdd", "wait_slow", 0)
+    order("ordWaitRmw", "wait_slow", 0)
     order("ordWaitLoad", "wait_slow", 1)
-    order("ordWaitForAdd", "wait_for_slow", 0)
+    order("ordWaitForRmw", "wait_for_slow", 0)
     order("ordWaitForSlowLoad", "wait_for_slow", 1)
     order("ordCountSub", "count_down", 0)
     # order arguments passed to FutureContext::ready(order) by its callers
@@ -82,13 +82,14 @@ def generate():
     m = _need(r"if\s*\(\s*waiter_num\s*>\s*(\d+)\s*\)\s*\{\s*_futex\.wake_all\(\)", sv, "set_value: wake condition")
     items.append(nat_def("wakeIfWaitersAbove", int(m.group(1))))
     ws = strip_comments(ctx("wait_slow"))
-    m = _need(r"fetch_add\s*\(\s*(\d+)\s*,[^)]*\)\s*\+\s*(\d+)\s*;\s*while\s*\(\s*!\s*\(\s*value\s*&\s*READY_MASK\s*\)\s*\)\s*\{\s*_futex\.wait\s*\(\s*value\s*,\s*nullptr\s*\)", ws, "wait_slow loop shape")
-    items.append(nat_def("waitAddOperand", int(m.group(1))))
-    items.append(nat_def("waitAddLocalBump", int(m.group(2))))
+    # the waiter mark is a flag (fetch_or(1) | 1), not a counter: a counter that is never decremented carries into READY_MASK
+    m = _need(r"fetch_or\s*\(\s*(\d+)\s*,[^)]*\)\s*\|\s*(\d+)\s*;\s*while\s*\(\s*!\s*\(\s*value\s*&\s*READY_MASK\s*\)\s*\)\s*\{\s*_futex\.wait\s*\(\s*value\s*,\s*nullptr\s*\)", ws, "wait_slow loop shape (fetch_or flag)")
+    items.append(nat_def("waitOrOperand", int(m.group(1))))
+    items.append(nat_def("waitOrLocalMask", int(m.group(2))))
     wf = strip_comments(ctx("wait_for_slow"))
-    m = _need(r"fetch_add\s*\(\s*(\d+)\s*,[^)]*\)\s*\+\s*(\d+)\s*;\s*while\s*\(\s*!\s*\(\s*value\s*&\s*READY_MASK\s*\)\s*\)", wf, "wait_for_slow loop shape")
-    items.append(nat_def("waitForAddOperand", int(m.group(1))))
-    items.append(nat_def("waitForAddLocalBump", int(m.group(2))))
+    m = _need(r"fetch_or\s*\(\s*(\d+)\s*,[^)]*\)\s*\|\s*(\d+)\s*;\s*while\s*\(\s*!\s*\(\s*value\s*&\s*READY_MASK\s*\)\s*\)", wf, "wait_for_slow loop shape (fetch_or flag)")
+    items.append(nat_def("waitForOrOperand", int(m.group(1))))
+    items.append(nat_def("waitForOrLocalMask", int(m.group(2))))
     _need(r"until_ns\s*=\s*static_cast<int64_t>\s*\(\s*spec\.tv_sec\s*\)\s*\*\s*\(\s*1000\s*\*\s*1000\s*\*\s*1000\s*\)\s*;\s*until_ns\s*\+=\s*spec\.tv_nsec\s*\+\s*timeout_ns\s*;", wf, "until_ns = now + timeout")
     _need(r"spec\.tv_sec\s*=\s*timeout_ns\s*/\s*\(\s*1000\s*\*\s*1000\s*\*\s*1000\s*\)\s*;\s*spec\.tv_nsec\s*=\s*timeout_ns\s*%\s*\(\s*1000\s*\*\s*1000\s*\*\s*1000\s*\)\s*;\s*_futex\.wait\s*\(\s*value\s*,\s*&spec\s*\)", wf, "relative futex timeout = timeout_ns")
     _need(r"now_ns\s*\+=\s*spec\.tv_nsec\s*;\s*timeout_ns\s*=\s*until_ns\s*-\s*now_ns\s*;", wf, "timeout_ns = until_ns - now_ns")
